@@ -33,7 +33,8 @@ class ContainersMixin:
             return Seq([(self.vec_in(rv, j), Rf(place.ext(("i", I(j, "usize"))))) for j, x in enumerate(rv.items)
                         if x is not None and self.vec_in(rv, j) is not False])
         if name in ("push", "push_back"):
-            x = A()[0]
+            pt = ip.place_type(place) if place is not None else None
+            x = A([pt[1][0]] if pt and pt[1] else None)[0]
             if isinstance(x, Rf):
                 x = ip.deref(x)
             ip.modify(place, lambda old: self.vec_push(ip.deref(old), x))
@@ -299,7 +300,8 @@ class ContainersMixin:
         if name == "contains_key":
             return self.map_lookup(rv, D())[0]
         if name == "insert":
-            k, v = A()
+            pt = ip.place_type(place) if place is not None else None
+            k, v = A(pt[1] if pt and pt[0] in ("HashMap", "BTreeMap") and len(pt[1]) > 1 else None)
             k = ip.deref(k)
             if isinstance(v, Rf):
                 v = ip.deref(v)
